@@ -6,6 +6,7 @@ given set of primitives met on the way are the *effect* of the case, with their 
 given binding of the side to move. Whether a distinction is made by control flow (if/else) or by data (a conditional expression
 feeding an argument) does not matter. A condition the case does not decide is skipped when nothing under it calls a
 primitive, otherwise the function is unrecognised."""
+import re
 from facts import AnalysisBroken
 from prog import walk, kids, short
 from rules.norm import Norm, cond_value, Unknown
@@ -95,6 +96,32 @@ def effects_under(fn, stmts, val, env=None, keep=(), loops='stop', nm=None):
                 res.append(st)
         return res
 
+    def list_elements(loop):
+        ch = loop.get('ch') or []
+        decls = [d for c in ch if c is not None and c['k'] == 'DeclStmt' for d in kids(c) if d['k'] == 'VarDecl']
+        rng = [d for d in decls if (d.get('name') or '').startswith('__range') and kids(d)]
+        var = [d for d in decls if not (d.get('name') or '').startswith('__')]
+        if len(rng) != 1 or len(var) != 1 or not ch or ch[-1] is None or 'initializer_list' not in (rng[0].get('t') or ''):
+            return None
+        lists = [x for x in walk(kids(rng[0])[0]) if x['k'] == 'InitListExpr']
+        if len(lists) != 1:
+            return None
+        t = var[0].get('t') or ''
+        if '&' in t and 'const' not in t:
+            return None
+        elems = []
+        for el in kids(lists[0]):
+            e = el
+            while e is not None and e['k'] in ('ImplicitCastExpr', 'ParenExpr') and kids(e):
+                e = kids(e)[-1]
+            if nm0.cval(e) is not None:
+                elems.append(str(nm0.cval(e)))
+            elif e['k'] == 'UnaryOperator' and e.get('op') == '&' and (kids(e)[0].get('ref') or {}).get('k') in ('Local', 'Parm'):
+                elems.append('&' + short((kids(e)[0]['ref'])['n']))
+            else:
+                return None
+        return var[0], elems, ch[-1]
+
     def run(sts):
         for st in sts:
             if st is None or st.get('mac') in ('assert', 'ASSERT', 'ASSERT_WITH_MSG'):
@@ -125,6 +152,24 @@ def effects_under(fn, stmts, val, env=None, keep=(), loops='stop', nm=None):
             elif k == 'ReturnStmt':
                 out.append('return ' + (nm.s(kids(st)[0]) if kids(st) else ''))
                 return True
+            elif k == 'CXXForRangeStmt' and list_elements(st) is not None:
+                # a loop over a braced list of constants / addresses of variables: the body once per element, in order
+                var, elems, body = list_elements(st)
+                for el in elems:
+                    mark = len(out)
+                    nm.env[var['name']] = el
+                    nm0.env[var['name']] = el
+                    try:
+                        done = run([body])
+                    finally:
+                        nm.env.pop(var['name'], None)
+                        nm0.env.pop(var['name'], None)
+                    out[mark:] = [re.sub(r'\*\(&(\w+)\)', r'\1', x) for x in out[mark:]]
+                    if done:
+                        if out and out[-1] == 'continue':
+                            out.pop()
+                            continue
+                        return True
             elif k in ('ForStmt', 'WhileStmt', 'DoStmt', 'CXXForRangeStmt'):
                 if loops == 'stop' and has_effect(st):
                     raise AnalysisBroken('%s: loop at line %s inside a fragment evaluated per case' % (fn.name, st.get('l')))
